@@ -84,7 +84,7 @@ BUILTIN_ENUMS = {
     'TrySendError': ['Full', 'Disconnected'], 'TryRecvError': ['Empty', 'Disconnected'],
     'Cow': ['Borrowed', 'Owned'],
     'GenError': ['BufferTooSmall', 'InvalidOffset', 'CustomError', 'NotYetImplemented'],
-    'SendError': ['Io', 'Disconnected'],
+    'SendError': ['Io', 'Disconnected'], 'mio_extras::channel::TrySendError': ['Io', 'Full', 'Disconnected'],
     'ErrorKind': None,
 }
 
